@@ -213,7 +213,7 @@ pub fn judge(h: &History, recs: &[StepRec]) -> Result<(u32, u32), Failure> {
         if r.trace.iter().any(|e| matches!(e, Ev::Fault(_))) || r.deliveries.iter().any(|d| matches!(d.verdict, Verdict::SizeDontCare)) {
             return Ok((judged, acks));
         }
-        if matches!(r.step, Step::Join(_) | Step::JoinAbp) {
+        if matches!(r.step, Step::Join(_) | Step::JoinAbp | Step::SetSession { .. }) {
             pending = None;
             sticky.clear();
             sticky_known = true;
